@@ -1104,6 +1104,7 @@ class Spec(object):
         self.undecided = 0
         self.undecided_ops = {}
         self.placed = 0
+        self.ledgered = 0
         self.unplaced = 0
         self.unplaced_ops = {}
 
@@ -1379,7 +1380,23 @@ class Spec(object):
         # otherwise the sequence lives somewhere else afterwards (a fresh buffer, the object's own
         # inline buffer, a buffer adopted from the argument): everything that is not already there
         # must be written
-        fs = ex.get('facts') or []
+        fs = list(ex.get('facts') or [])
+        # API precondition: position arguments are iterators into [begin(), end()] of this container
+        if k == 0 and not ctor:
+            E0_ = lin_add(D0, lin_scale(atom(('init', self.cell(2))), s))
+            neq = []
+            for (cnd, v_) in ex.get('conds', ()):
+                a_ = single_atom(cnd)
+                if a_ is not None and a_[0] == 'cmp' and a_[1] == 'eq' and v_ is False:
+                    neq.append(lin_sub(a_[2], a_[3]))
+            for i_, kd in enumerate(c['kinds']):
+                if kd == 'it' and c['bn'] in ('insert', 'emplace', 'erase'):
+                    Ai = atom(('arg', c['pos'][i_]))
+                    fs.append(('le', D0, Ai))
+                    fs.append(('le', Ai, E0_))
+                    dd = lin_sub(Ai, E0_)
+                    if any(same(q, dd, eqs) or same(q, lin_scale(dd, -1), eqs) for q in neq):
+                        fs.append(('le', lin_add(Ai, L(s)), E0_))     # not end(): at least one element follows
 
         def prove_le(x, y):
             """x <= y from the path's order facts: y - x == k * (v - u) + c for a fact u <= v / u < v"""
@@ -1529,6 +1546,82 @@ class Spec(object):
             x = stray[0]
             return ('bad', 'an element operation writes [%s, %s), which is not part of what the operation specifies'
                     % (rd(x['a']), rd(x['b'])), {'write': [rd(x['a']), rd(x['b'])], 'kind': x['what']})
+        # ---- lifetime ledger of this path (reported under C03 as R03.7) -------------------------------
+        if k == 0 and strays:
+            E0 = lin_add(D0, lin_scale(atom(('init', self.cell(2))), s))
+            S1 = ex['val'](self.cell(2))
+            newE = lin_add(D1, lin_scale(S1, s)) if S1 is not None and clean(lin_sub(S1, L(0))) else None
+            led = None
+            kinds = self.cur['kinds']
+            others = any(x in ('other', 'other_move') for x in kinds)
+            adopted = (not inplace) and clean(D1) and any(at[0] == 'init' for at, co in D1[2])
+            # destroy-then-construct at the same address replaces an element (it is an assignment as
+            # far as lifetimes are concerned)
+            replaced = set()
+            for i_, e in enumerate(effs):
+                if e[0] != 'destroy' or is_temp(e[2]):
+                    continue
+                eb = e[3] if e[3] is not None else lin_add(e[2], L(s))
+                for w in writes:
+                    if w['what'] == 'construct' and w['i'] > i_ and id(w) not in replaced and \
+                            same(w['a'], e[2], eqs) and same(w['b'], eb, eqs):
+                        replaced.add(id(w))
+                        replaced.add(('d', i_))
+                        break
+            for w in writes:
+                if not w['used'] or w['what'] in ('swap', 'bytecopy'):
+                    continue
+                if id(w) in replaced:
+                    w = dict(w)
+                    w['what'] = 'assign'
+                if inplace:
+                    if prove_le(w['b'], E0) and w['what'] != 'assign':
+                        led = ('an element is constructed over storage that holds a live element (the old one is never destroyed)',
+                               {'write': [rd(w['a']), rd(w['b'])], 'kind': w['what']})
+                    elif prove_le(E0, w['a']) and w['what'] != 'construct':
+                        led = ('an element is assigned in storage beyond the live range (no object lives there)',
+                               {'write': [rd(w['a']), rd(w['b'])], 'kind': w['what']})
+                elif not adopted and w['what'] != 'construct':
+                    led = ('an element is assigned in a buffer in which nothing has been constructed',
+                           {'write': [rd(w['a']), rd(w['b'])], 'kind': w['what']})
+                if led:
+                    break
+            if led is None and not others and newE is not None:
+                dst = []
+                for i_, e in enumerate(effs):
+                    if e[0] == 'destroy' and not is_temp(e[2]) and ('d', i_) not in replaced:
+                        b = e[3] if e[3] is not None else lin_add(e[2], L(s))
+                        if not same(e[2], b, eqs):
+                            dst.append([e[2], b, False])
+                want = None
+                if not inplace and not ctor:
+                    want = (D0, E0)
+                elif inplace and prove_le(newE, E0):
+                    want = (newE, E0)
+                elif (inplace and prove_le(E0, newE)) or ctor:
+                    want = (E0, E0)
+                if want is not None:
+                    cur = want[0]
+                    steps = 0
+                    while not same(cur, want[1], eqs) and steps < 8:
+                        steps += 1
+                        nx = None
+                        for d_ in dst:
+                            if not d_[2] and same(d_[0], cur, eqs):
+                                nx = d_
+                                break
+                        if nx is None:
+                            led = ('elements that leave the sequence are not destroyed: [%s, %s) has no destruction starting at %s'
+                                   % (rd(want[0]), rd(want[1]), rd(cur)), {'expected_destroyed': [rd(want[0]), rd(want[1])]})
+                            break
+                        nx[2] = True
+                        cur = nx[1]
+                    if led is None:
+                        extra = [d_ for d_ in dst if not d_[2]]
+                        if extra:
+                            led = ('elements that stay in the sequence (or raw storage) are destroyed: [%s, %s)'
+                                   % (rd(extra[0][0]), rd(extra[0][1])), {'destroyed': [rd(extra[0][0]), rd(extra[0][1])]})
+            self._ledger = ('bad',) + led if led else ('ok', '', None)
         return ('ok', '', None)
 
     # -- verdicts -------------------------------------------------------------------------------
@@ -1645,7 +1738,19 @@ class Spec(object):
                 self.decided += 1
         segs = e.get('place')
         if segs is not None and self.placement_ok(c):
+            self._ledger = None
             verdict, text, detail = self.check_placement(ex, segs, eng)
+            if verdict == 'ok' and self._ledger is not None and not ex.get('approx'):
+                lv, lt, ld = self._ledger
+                if lv == 'ok':
+                    self.rep('R03.7', True, 'lifetime ledger')
+                else:
+                    d = dict(ld or {})
+                    d['through'] = self.via(ex)
+                    if ex['effects'] is not None:
+                        d['element_operations'] = [self.eff_text(x, c) for x in ex['effects']][:10]
+                    self.rep('R03.7', False, lt, d)
+                self.ledgered += 1
             if verdict == 'bad' and ex.get('approx'):
                 verdict, text = 'undecided', 'a case of an internal function was approximated (too many distinct cases)'
             if verdict == 'ok':
@@ -1739,6 +1844,6 @@ def analyse_tu(eng, cfg):
         control = {'flagged': len(flagged), 'wrongly_passed': sorted(passed - flagged)[:10], 'passed_somewhere': len(passed)}
     return {'reports': list(spec.reports.values()), 'functions': n, 'decided': spec.decided, 'control': control,
             'undecided_paths': spec.undecided, 'undecided_ops': spec.undecided_ops,
-            'placed': spec.placed, 'unplaced': spec.unplaced, 'unplaced_ops': spec.unplaced_ops,
+            'placed': spec.placed, 'unplaced': spec.unplaced, 'ledgered': spec.ledgered, 'unplaced_ops': spec.unplaced_ops,
             'operations': sorted(ops), 'laws': laws.stats,
             'law_functions': sorted(base_name(eng.oracle.pretty.get(k, k)) for k, v in laws.memo.items() if v is not None)}
